@@ -132,6 +132,46 @@ def r05_1(chk, dp, dx):
                 lo, hi = 0, 102             # a whole-array test np.any((e < 1) | (e > 103)) guards every element
         chk.ob("R05.1", DP, q, "the element number is guarded to 1..103 before it indexes the table", lo >= 0 and hi <= 102, node=e.node,
                fingerprint="guard", expected="0 <= el - 1 <= 102", found=f"[{lo}, {hi}]")
+    # the range test rejects exactly what is outside the table: an element is refused when el < 1 OR el > 103, nothing else (a test that
+    # needs both, or that cuts off hydrogen / the heaviest rows, refuses or admits the wrong atoms)
+    rz = [e for e in ev.events if e.kind == "raise" and e.guards]
+    if rz:
+        def bounds_of(c, pol):
+            """the set {('lo', k), ('hi', k)} of a disjunction  any(el < k) or any(el > k)  that leads to the raise"""
+            if not pol:
+                return None
+            parts, todo = [], [c]
+            while todo:
+                t = todo.pop()
+                ta = t.as_atom()
+                if ta and ta[0] == "or":
+                    todo.extend(ta[1])
+                elif ta and ta[0] == "bin" and ta[1] == "BitOr":
+                    todo.extend((ta[2], ta[3]))
+                elif ta and ta[0] == "call" and call_name(ta) in ("numpy.any", ".any", "any", "numpy.logical_or"):
+                    if call_name(ta) == "numpy.logical_or":
+                        todo.extend(ta[2][:2])
+                    else:
+                        todo.append(ta[2][0] if ta[2] else ta[1].as_atom()[1])
+                else:
+                    parts.append(t)
+            out = set()
+            for p_ in parts:
+                inner = p_.as_atom()
+                if not (inner and inner[0] in ("lt", "le")):
+                    return None
+                l, r = inner[1], inner[2]
+                if r.const_value() is not None and "elements" in l.key():
+                    out.add(("lo", int(r.const_value()) + (1 if inner[0] == "le" else 0)))         # el < k  /  el <= k-1
+                elif l.const_value() is not None and "elements" in r.key():
+                    out.add(("hi", int(l.const_value()) - (1 if inner[0] == "le" else 0)))         # k < el
+                else:
+                    return None
+            return out
+        got = [bounds_of(c, pol) for e in rz for c, pol in e.guards[-1:]]
+        chk.ob("R05.1", DP, q, "an atom is refused exactly when its number is below 1 or above 103 (either condition alone suffices, and no valid "
+               "element is refused)", any(g == {("lo", 1), ("hi", 103)} for g in got if g is not None), node=rz[0].node, fingerprint="range-exact",
+               expected="raise if any(el < 1) or any(el > 103)", found=str(rz[0].guards[-1][0])[:160])
     calls = [c for c in ev.events if c.kind == "call" and "cPromol" in (call_name(c.value.as_atom() or ()) or "") or
              (c.kind == "call" and (call_name(c.value.as_atom() or ()) or "").endswith("PromoleculeDensity"))]
     chk.need(calls, f"{q}: construction of the compiled density not found")
